@@ -204,6 +204,11 @@ func (r *spaceRunner) run(b spaceBounds) {
 			r.bytesCase("regex", []byte(t))
 			w.S.Nontrivial++
 		}
+		// regex texts with line breaks around the delimiters (the diagnostics point at them)
+		for _, t := range []string{"\n/", "\n/a/", "\na", " \n /a/", "\r\n/a", "\r/a/", "/a\n/", "/a/\n", "/a/\nx", "\n", "\n\n/a/"} {
+			r.bytesCase("regex", []byte(t))
+			w.S.Nontrivial++
+		}
 	}
 }
 
